@@ -1492,7 +1492,7 @@ pub fn gen_rrset(r: &mut Rng, _i: u64) -> String {
         }
     }
     // OPT placement
-    let ext = *r.pick(&[0u8, 0, 0, 0, 1, 16, 255]);
+    let ext = *r.pick(&[0u8, 0, 0, 0, 1, 16, 255, 0x10, 0x20, 0x80, 0xf0, 0x11]);
     let mk_opt = |ext: u8, r: &mut Rng| GRec {
         owner: GName::root(),
         rtype: T_OPT,
@@ -1549,9 +1549,16 @@ pub fn gen_rrset(r: &mut Rng, _i: u64) -> String {
         && first_opt_ext.unwrap_or(0) == 0
         && m.sections[0].iter().all(|x| x.rtype != T_OPT)
         && ALL_TYPES.contains(&want);
+    // the gates of C07, read off the semantic message: QR, TC, QDCOUNT and the 12-bit extended RCODE
+    // (header RCODE | extension byte of the first OPT behind the answer section << 4)
+    let ext_rcode = (m.flags & 0xF) as u32 | ((first_opt_ext.unwrap_or(0) as u32) << 4);
+    let gate_closed = !mutated
+        && (m.flags & 0x8000 == 0 || m.flags & 0x0200 != 0 || m.questions.len() != 1 || ext_rcode != 0);
     if clean {
         let exp = reference_rrset(&m.sections[0], &m.questions[0].0, m.questions[0].2, want);
         format!("rrset {} {} exp={}", type_name(want), to_hex(&buf), exp)
+    } else if gate_closed {
+        format!("rrset {} {} exp=gate", type_name(want), to_hex(&buf))
     } else {
         format!("rrset {} {}", type_name(want), to_hex(&buf))
     }
